@@ -446,6 +446,13 @@ func (x *Exec) effectsRec(fn *ssa.Function, visiting map[*ssa.Function]bool) *Wr
 		return ws
 	}
 	if len(fn.Blocks) == 0 || !x.inModule(fn) {
+		if keys, ok := x.argReachKeys(fn.Signature); ok {
+			for _, k := range keys {
+				ws.keys[k] = true
+			}
+			x.effCache[fn] = ws
+			return ws
+		}
 		ws.all = true
 		ws.why = "unmodelled " + key
 		x.effCache[fn] = ws
